@@ -37,6 +37,10 @@ FIELDS = ['_tempo', '_beat_dur', '_base_seconds', '_base_beats', '_beats_per_bar
 def dec(a):
     if a is None:
         return None
+    if a[0] == 'NZ':
+        return -0.0
+    if a[0] == 'B':
+        return bool(int(a[1]))
     return int(a[1]) if a[0] == 'I' else float(Fraction(a[1]))
 
 
@@ -79,6 +83,10 @@ def ask(c, name, args, ev):
         return getattr(c, name)
     if name == 'time_to_next_beat':
         return c.time_to_next_beat(dec_quant(args[0]))
+    if name == 'next_bar_rel':   # a beat exactly on / next to a bar line: base_bar_beat + k * beats_per_bar + d
+        ref = c.base_bar_beat + dec(args[0]) * c.beats_per_bar + dec(args[1])
+        ev['ref'] = enc(ref)
+        return c.next_bar(ref)
     if name == 'grid_rel':       # reference beat given relative to the grid origin
         ref = c.base_bar_beat + dec(args[2])
         ev['ref'] = enc(ref)
@@ -137,7 +145,9 @@ class Session:
                     self.events.append(ev)
                     kind = act[0]
                     try:
-                        if kind == 'set':
+                        if kind == 'sleep':
+                            time.sleep(act[1] / 1000.0)
+                        elif kind == 'set':
                             v = dec(act[2])
                             if act[1] == 'tempo':
                                 c.tempo = v
@@ -207,7 +217,7 @@ def run_nrt(case):
             s.first_play(c, M.current_tt._seconds)
 
     Routine(boot).play(SystemClock)
-    M.process()
+    M._clock_scheduler.run()    # main.process() without closing the OSC score (times may be negative here)
     return s.out
 
 
